@@ -53,7 +53,7 @@ def isCheckedRadioOf (c : Ctx) (form : Loc) (name : Option NVal) (ch : Loc) : Bo
   match ch.elem? with
   | none => false
   | some ce =>
-    c.tagName ce == "input".toStr && radioCheckedScan c.isXml name ce.attrs false false false &&
+    c.tagName ce == "input".toStr && c.isHtmlTag ce && radioCheckedScan c.isXml name ce.attrs false false false &&
       (match parentForm c ch with
        | some f => f.same form
        | none => false)
